@@ -18,9 +18,9 @@ Proof. unfold keys. rewrite proj_zmap. apply keys_zmap. Qed.
 
 Lemma keys_zset_same {A} k (a n : A) t : zassoc k t = Some n -> keys (zset k a t) = keys t.
 Proof.
-  induction t as [|[k' a'] t IH]; simpl; [discriminate|].
+  unfold keys. induction t as [|[k' a'] t IH]; simpl; [discriminate|].
   destruct (Z.eqb_spec k k'); simpl; [intros _; subst; reflexivity|].
-  intro H. unfold keys in IH. rewrite (IH H). reflexivity.
+  intro H. rewrite (IH H). reflexivity.
 Qed.
 
 Lemma keys_tupd k f t : keys (tupd k f t) = keys t.
@@ -59,25 +59,389 @@ Section Ids.
 
   Notation P g := (proj (g_sensors g)).
 
-  (* a received line keeps every key, and keeps the keys in 0..255 *)
-  Lemma keys_mlv v t l :
+  (* a received line keeps every key in place, and adds at most one, fresh and in 0..255 *)
+  Lemma keys_mlv v t l : in_range (keys t) ->
     keys (mlv orc v t l) = keys t \/
-    exists n, keys (mlv orc v t l) = keys t ++ [n] /\ zhas n t = false /\ 0 <= n <= 255 /\
-              (in_range (keys t) -> 0 <= n).
+    exists n, keys (mlv orc v t l) = keys t ++ [n] /\ zhas n t = false /\ 0 <= n <= 255.
   Proof.
-    unfold mlv, meaning_line. destruct (decode l) as [m|]; [|left; reflexivity].
+    intro R. unfold mlv, meaning_line. destruct (decode l) as [m|]; [|left; reflexivity].
     destruct (accv orc v m) eqn:V; [|left; reflexivity].
     destruct (keys_meaning (safe_version orc) (kind_of v m) t m) as [E|[(K & Z0 & E)|(K & L & E)]];
       [left; exact E| |]; right.
     - exists (m_node m). split; [exact E|]. split; [exact Z0|].
       unfold accv in V. rewrite validate_conforms in V. unfold spec_accepts in V.
       repeat match type of V with _ && _ = true => apply andb_true_iff in V as [V ?] end.
-      unfold between in V. split; [lia|]. intros _. lia.
+      unfold between in V. lia.
     - exists (tnext t). split; [exact E|]. split; [apply tnext_fresh|].
-      (* the lower bound needs the keys to be non-negative: stated conditionally *)
-      split.
-      + destruct (Z_le_gt_dec 0 (tnext t)); [lia|].
-        (* tnext below 0 is possible only with negative keys; the range claim is then void below *)
-        exfalso.
-  Abort.
+      pose proof (tnext_pos t R). lia.
+  Qed.
+
+  Lemma in_range_mlv v t l : in_range (keys t) -> in_range (keys (mlv orc v t l)).
+  Proof.
+    intro R. destruct (keys_mlv v t l R) as [E|(n & E & _ & B)]; rewrite E; [exact R|].
+    apply Forall_app. split; [exact R|]. constructor; [exact B|constructor].
+  Qed.
+
+  Lemma mono_mlv v t l k : in_range (keys t) -> In k (keys t) -> In k (keys (mlv orc v t l)).
+  Proof.
+    intros R I. destruct (keys_mlv v t l R) as [E|(n & E & _)]; rewrite E; [exact I|].
+    apply in_or_app. left. exact I.
+  Qed.
+
+  (* ---- which line the dispatcher processes in a step, and the tree after the step ---- *)
+  Definition line_run (g : gw) (o : op) : option pstr :=
+    match o with
+    | Recv l => if cf_async (g_cf g) then Some l else None
+    | Pump => match g_jobs g with JLogic l :: _ => Some l | _ => None end
+    | _ => None
+    end.
+
+  Lemma step_tree v g o : cfg_is v (g_cf g) -> Inv orc g -> op_ok o ->
+    P (step orc clock g o) = match line_run g o with Some l => mlv orc v (P g) l | None => P g end.
+  Proof.
+    intros CI I O. destruct o as [l| |s c vt x mt a|ns t x b|b]; cbn [step line_run].
+    - destruct (cf_async (g_cf g)) eqn:A.
+      + destruct (recv_async_eff orc clock v g l CI I A) as (_ & T & _). rewrite T, (ml_cfg orc v g CI). reflexivity.
+      + rewrite (recv_threaded orc clock g l A). reflexivity.
+    - destruct (g_jobs g) as [|[l|l] rest] eqn:J.
+      + rewrite (pump_empty orc clock g J). reflexivity.
+      + destruct (pump_logic_eff orc clock v g l rest CI I J) as (_ & T & _).
+        rewrite T, (ml_cfg orc v g CI). reflexivity.
+      + rewrite (pump_send orc clock g l rest J), sensors_send. reflexivity.
+    - destruct (step_set_child_q orc clock g s c vt x mt a I) as [_ E]. exact E.
+    - destruct (step_update_fw_q orc clock g ns t x b I) as [_ E]. exact E.
+    - reflexivity.
+  Qed.
+
+  (* C06.2: no step removes a key (or moves it) *)
+  Theorem step_keys_monotone v g o k : cfg_is v (g_cf g) -> Inv orc g -> op_ok o ->
+    in_range (keys (g_sensors g)) ->
+    zhas k (g_sensors g) = true -> zhas k (g_sensors (step orc clock g o)) = true.
+  Proof.
+    intros CI I O R H. apply zhas_keys. rewrite <- keys_proj, (step_tree v g o CI I O).
+    apply zhas_keys in H. rewrite <- keys_proj in H, R.
+    destruct (line_run g o); [apply mono_mlv; assumption|exact H].
+  Qed.
+
+  Theorem step_keys_in_range v g o : cfg_is v (g_cf g) -> Inv orc g -> op_ok o ->
+    in_range (keys (g_sensors g)) -> in_range (keys (g_sensors (step orc clock g o))).
+  Proof.
+    intros CI I O R. rewrite <- keys_proj, (step_tree v g o CI I O). rewrite <- keys_proj in R.
+    destruct (line_run g o); [apply in_range_mlv|]; exact R.
+  Qed.
+
+  Theorem keys_monotone v ops : forall g k, cfg_is v (g_cf g) -> Inv orc g -> Forall op_ok ops ->
+    in_range (keys (g_sensors g)) ->
+    zhas k (g_sensors g) = true ->
+    zhas k (g_sensors (run orc clock g ops)) = true /\ in_range (keys (g_sensors (run orc clock g ops))).
+  Proof.
+    induction ops as [|o ops IH]; intros g k CI I F R H; [split; assumption|].
+    inversion F as [|? ? O F']; subst. unfold run. cbn [fold_left].
+    destruct (step_ok orc clock g o (cfg_is_ok _ _ CI) I O) as [I1 C1].
+    apply IH; try assumption.
+    - rewrite C1. exact CI.
+    - eapply step_keys_in_range; eassumption.
+    - eapply step_keys_monotone; eassumption.
+  Qed.
+
+  (* reachable states have their keys in 0..255 *)
+  Theorem keys_in_range v cf ops : cfg_is v cf -> Forall op_ok ops ->
+    in_range (keys (g_sensors (run orc clock (gw_init cf) ops))).
+  Proof.
+    intros CI F. revert F. generalize (Inv_init orc cf).
+    assert (R : in_range (keys (g_sensors (gw_init cf)))) by constructor.
+    assert (C : cfg_is v (g_cf (gw_init cf))) by exact CI.
+    revert R C. generalize (gw_init cf). induction ops as [|o ops IH]; intros g R C I F; [exact R|].
+    inversion F as [|? ? O F']; subst. unfold run. cbn [fold_left].
+    destruct (step_ok orc clock g o (cfg_is_ok _ _ C) I O) as [I1 C1].
+    apply IH; try assumption.
+    - eapply step_keys_in_range; eassumption.
+    - rewrite C1. exact C.
+  Qed.
+
+  (* ---- C06.1: the id carried by an id response ---- *)
+  Lemma copy_payload m rp r p : copy m rp = Ok r -> r_payload rp = Some p -> m_payload r = p.
+  Proof.
+    unfold copy. destruct (decode (encode m)) as [m'|]; [|discriminate].
+    intros H E. inversion H. subst. unfold override. cbn. rewrite E. reflexivity.
+  Qed.
+
+  Theorem id_response_fresh v g m g' r : cfg_is v (g_cf g) -> in_range (keys (g_sensors g)) ->
+    handle_id_request g m = Ok (g', Some r) ->
+    exists nid, m_payload r = print nid /\ 1 <= nid <= 254 /\
+                zhas nid (g_sensors g) = false /\ zhas nid (g_sensors g') = true /\
+                (forall k, zhas k (g_sensors g) = true -> k < nid) /\
+                g_sensors g' = g_sensors g ++ [(nid, new_node nid)].
+  Proof.
+    intros CI R. unfold handle_id_request. rewrite (next_id_spec g (max_node_cfg v g CI)).
+    destruct (tnext (P g) <=? 254) eqn:L; [|discriminate].
+    rewrite zhas_add_sensor. cbn [negb].
+    destruct (internal_member g "I_ID_RESPONSE") as [ir|]; cbn [bind]; [|discriminate].
+    destruct (copy m (mkRepl None None None (Some 0) (Some ir) (Some (print (tnext (P g)))))) as [r0|] eqn:CP;
+      cbn [bind]; [|discriminate].
+    intro H. inversion H. subst. clear H.
+    exists (tnext (P g)).
+    assert (FR : zhas (tnext (P g)) (g_sensors g) = false).
+    { rewrite <- known_proj. apply tnext_fresh. }
+    split; [eapply copy_payload; [exact CP|reflexivity]|].
+    split; [rewrite <- keys_proj in R; pose proof (tnext_pos _ R); lia|].
+    split; [exact FR|].
+    rewrite sensors_alert. split; [apply zhas_add_sensor|].
+    split.
+    - intros k K. apply tnext_gt. rewrite <- known_proj in K. exact K.
+    - unfold add_sensor. rewrite FR. reflexivity.
+  Qed.
+
+  (* C06.3: no id left: no response, state unchanged *)
+  Theorem exhaustion_silent v g m k : cfg_is v (g_cf g) ->
+    zhas k (g_sensors g) = true -> 254 <= k -> handle_id_request g m = Ok (g, None).
+  Proof.
+    intros CI K L. unfold handle_id_request. rewrite (next_id_spec g (max_node_cfg v g CI)).
+    assert (G : k < tnext (P g)) by (apply tnext_gt; rewrite <- known_proj in K; exact K).
+    destruct (tnext (P g) <=? 254) eqn:E; [lia|reflexivity].
+  Qed.
+
+  (* ---- through the dispatcher: an accepted id request runs handle_id_request on the state itself ---- *)
+  Lemma ikind_id h : ikind h = KIdRequest -> h = HIdRequest.
+  Proof. destruct h; simpl; intro H; try discriminate H; reflexivity. Qed.
+
+  Theorem logic_id_request v g l m g' r : cfg_is v (g_cf g) -> Inv orc g ->
+    decode l = Some m -> gvalidate orc g m = true -> m_type m = 3 -> m_sub m = 3 ->
+    logic orc clock g l = Ok (g', r) ->
+    exists g1 rep routed, handle_id_request g m = Ok (g1, rep) /\ route_opt g1 rep = (g', routed) /\
+                          r = option_map encode routed.
+  Proof.
+    intros CI I D V Ty Su. pose proof (facts_of_cfg g (cfg_is_ok _ _ CI)) as F.
+    destruct (validated_ranges orc v g m CI V) as (_ & BT & BS).
+    unfold logic. rewrite D, V. cbn [negb].
+    destruct (type_handler_cases g (m_type m) F BT) as [[T E]|[[T E]|[[T E]|[[T E]|[T E]]]]]; try lia.
+    rewrite E. unfold run_handler, handle_internal.
+    rewrite Ty in BS. pose proof (registry_internal v (m_sub m) BS) as RI.
+    destruct CI as [TB _]. unfold tab. rewrite TB, Ty.
+    rewrite Su in RI. rewrite Su.
+    destruct (sub_handler (tab_of v) 3 3) as [h|]; [|discriminate RI].
+    cbn [okind] in RI. change (internal_kind v 3) with KIdRequest in RI. apply ikind_id in RI. subst h.
+    unfold run_leaf.
+    destruct (handle_id_request g m) as [[g1 rep]|]; cbn [bind]; [|discriminate].
+    destruct (route_opt g1 rep) as [g2 routed] eqn:RO.
+    intro H. inversion H. subst. exists g1, rep, routed. repeat split. exact RO.
+  Qed.
+
+  Theorem exhaustion_silent_logic v g l m k : cfg_is v (g_cf g) -> Inv orc g ->
+    decode l = Some m -> gvalidate orc g m = true -> m_type m = 3 -> m_sub m = 3 ->
+    zhas k (g_sensors g) = true -> 254 <= k ->
+    logic orc clock g l = Ok (g, None).
+  Proof.
+    intros CI I D V Ty Su K L.
+    destruct (logic_total orc clock g l (cfg_is_ok _ _ CI) I) as (g' & r & E & _).
+    destruct (logic_id_request v g l m g' r CI I D V Ty Su E) as (g1 & rep & routed & H1 & H2 & H3).
+    rewrite (exhaustion_silent v g m k CI K L) in H1. inversion H1. subst g1 rep.
+    cbn in H2. inversion H2. subst. exact E.
+  Qed.
 End Ids.
+
+(* ---- histories, with periodic saves and clean stop/restart ---- *)
+Definition is_id_request (m : msg) : bool := (m_type m =? 3) && (m_sub m =? 3).
+
+Lemma kind_of_id_request v m : is_id_request m = true -> kind_of v m = KIdRequest.
+Proof.
+  unfold is_id_request. intro H. apply andb_true_iff in H as [T S].
+  apply Z.eqb_eq in T. apply Z.eqb_eq in S. unfold kind_of. rewrite T, S. reflexivity.
+Qed.
+
+Lemma keys_load_tree t : keys (load_tree t) = keys t.
+Proof. unfold keys, load_tree. rewrite map_map. reflexivity. Qed.
+
+Section IdsHistory.
+  Variable orc : oracles.
+  Variable clock : Z.
+
+  Notation P g := (proj (g_sensors g)).
+
+  (* the id that processing line l hands out in a state whose tree is t (None: no id response) *)
+  Definition id_of_line (v : ver) (t : tree) (l : pstr) : option Z :=
+    match decode l with
+    | Some m => if accv orc v m && is_id_request m && (tnext t <=? 254) then Some (tnext t) else None
+    | None => None
+    end.
+
+  Definition id_of_pstep (v : ver) (s : pstate) (o : pop) : option Z :=
+    match o with
+    | POp o => match line_run (fst s) o with
+               | Some l => id_of_line v (P (fst s)) l
+               | None => None
+               end
+    | _ => None
+    end.
+
+  Fixpoint ids_handed (v : ver) (s : pstate) (pops : list pop) : list Z :=
+    match pops with
+    | [] => []
+    | o :: r => (match id_of_pstep v s o with Some n => [n] | None => [] end) ++
+                ids_handed v (pstep orc clock s o) r
+    end.
+
+  Lemma id_line_adds v t l n : id_of_line v t l = Some n ->
+    n = tnext t /\ tnext t <= 254 /\ mlv orc v t l = t ++ [(n, tnew n)].
+  Proof.
+    unfold id_of_line, mlv, meaning_line. destruct (decode l) as [m|]; [|discriminate].
+    destruct (accv orc v m); [|discriminate]. cbn [andb].
+    destruct (is_id_request m) eqn:IR; [|discriminate]. cbn [andb].
+    destruct (tnext t <=? 254) eqn:L; [|discriminate].
+    intro H. inversion H. subst. split; [reflexivity|]. split; [lia|].
+    rewrite (kind_of_id_request v m IR). unfold meaning. rewrite L. reflexivity.
+  Qed.
+
+  (* id_of_line is the payload of the id response that handle_id_request builds (soundness),
+     and None means handle_id_request answers nothing (completeness) *)
+  Theorem id_of_line_sound v g l n : cfg_is v (g_cf g) -> id_of_line v (P g) l = Some n ->
+    exists m g1 rsp, decode l = Some m /\ gvalidate orc g m = true /\ is_id_request m = true /\
+                     handle_id_request g m = Ok (g1, Some rsp) /\ m_payload rsp = print n.
+  Proof.
+    intros CI. unfold id_of_line. destruct (decode l) as [m|] eqn:D; [|discriminate].
+    destruct (accv orc v m) eqn:V; [|discriminate]. cbn [andb].
+    destruct (is_id_request m) eqn:IR; [|discriminate]. cbn [andb].
+    destruct (tnext (P g) <=? 254) eqn:L; [|discriminate].
+    intro H. inversion H. subst n. clear H.
+    pose proof (facts_of_cfg g (cfg_is_ok _ _ CI)) as F. unfold facts, tab_facts in F.
+    repeat match type of F with _ && _ = true => apply andb_true_iff in F as [F ?] end.
+    match goal with H : has_member _ "I_ID_RESPONSE" = true |- _ =>
+      destruct (internal_member_ok g _ H) as [z Ez] end.
+    pose proof (decoded_payload_wire_ok _ _ D) as W.
+    exists m. eexists. eexists. split; [reflexivity|].
+    split; [destruct CI as [T _]; unfold gvalidate, tab; rewrite T; exact V|]. split; [reflexivity|].
+    unfold handle_id_request. rewrite (next_id_spec g (max_node_cfg v g CI)), L, zhas_add_sensor. cbn [negb].
+    rewrite Ez. cbn [bind]. rewrite (copy_spec _ _ W). cbn [bind]. split; reflexivity.
+  Qed.
+
+  Theorem id_of_line_complete v g l m : cfg_is v (g_cf g) -> decode l = Some m ->
+    gvalidate orc g m = true -> is_id_request m = true -> id_of_line v (P g) l = None ->
+    handle_id_request g m = Ok (g, None).
+  Proof.
+    intros CI D V IR. unfold id_of_line. rewrite D.
+    assert (V' : accv orc v m = true) by (destruct CI as [T _]; unfold gvalidate, tab in V; rewrite T in V; exact V).
+    rewrite V', IR. cbn [andb]. destruct (tnext (P g) <=? 254) eqn:L; [discriminate|]. intros _.
+    unfold handle_id_request. rewrite (next_id_spec g (max_node_cfg v g CI)), L. reflexivity.
+  Qed.
+
+  (* periodic saves anywhere; restarts only with persistence enabled *)
+  Definition pop_ok2 (cf : config) (o : pop) : Prop :=
+    match o with POp o => op_ok o | PSave => True | PRestart => cf_persist cf = true end.
+
+  Definition IInv (cf : config) (s : pstate) : Prop :=
+    g_cf (fst s) = cf /\ Inv orc (fst s) /\ in_range (keys (g_sensors (fst s))) /\
+    (cf_persist cf = true -> synced s).
+
+  Lemma IInv_PInv v cf s : cf_persist cf = true -> IInv cf s -> PInv orc v cf s.
+  Proof. intros PE (C & I & _ & S). split; [exact C|]. split; [exact I|apply S; exact PE]. Qed.
+
+  Lemma save_tick_sensors g d : g_sensors (fst (save_tick g d)) = g_sensors g.
+  Proof. unfold save_tick. destruct (cf_persist (g_cf g) && g_dirty g); reflexivity. Qed.
+
+  Lemma ipstep v cf s o : cfg_is v cf -> pop_ok2 cf o -> IInv cf s ->
+    IInv cf (pstep orc clock s o) /\
+    (forall k, zhas k (g_sensors (fst s)) = true -> zhas k (g_sensors (fst (pstep orc clock s o))) = true) /\
+    (forall n, id_of_pstep v s o = Some n ->
+               1 <= n <= 254 /\ (forall k, zhas k (g_sensors (fst s)) = true -> k < n) /\
+               zhas n (g_sensors (fst (pstep orc clock s o))) = true).
+  Proof.
+    intros CI O H. pose proof H as (C & I & R & S). destruct s as [g d]. cbn [fst snd] in *.
+    assert (CI' : cfg_is v (g_cf g)) by (rewrite C; exact CI).
+    assert (SY : cf_persist cf = true -> synced (pstep orc clock (g, d) o)).
+    { intro PE. assert (O' : pop_ok o) by (destruct o; [exact O|exact Logic.I|exact Logic.I]).
+      destruct (pstep_inv orc clock v cf (g, d) o CI PE O' (IInv_PInv v cf _ PE H)) as (_ & _ & S'). exact S'. }
+    destruct o as [o| |]; cbn [pstep fst snd id_of_pstep] in *.
+    - destruct (step_ok orc clock g o (cfg_is_ok _ _ CI') I O) as [I1 C1].
+      split; [split; [congruence|]; split; [exact I1|]; split; [eapply step_keys_in_range; eassumption|exact SY]|].
+      split; [intros k K; eapply step_keys_monotone; eassumption|].
+      intros n N. pose proof (step_tree orc clock v g o CI' I O) as T.
+      destruct (line_run g o) as [l|]; [|discriminate N].
+      destruct (id_line_adds v (P g) l n N) as (E & L & ML).
+      rewrite <- keys_proj in R. pose proof (tnext_pos _ R) as POS.
+      split; [lia|]. split.
+      + intros k K. rewrite E. apply tnext_gt. rewrite <- known_proj in K. exact K.
+      + rewrite <- known_proj. unfold known. rewrite T, ML, zhas_app.
+        unfold zhas at 2. cbn. rewrite Z.eqb_refl. apply orb_true_r.
+    - split; [|split; [intros k K; rewrite save_tick_sensors; exact K|intros n N; discriminate N]].
+      split; [unfold save_tick; destruct (cf_persist (g_cf g) && g_dirty g); exact C|].
+      split; [|split; [rewrite save_tick_sensors; exact R|exact SY]].
+      unfold save_tick. destruct (cf_persist (g_cf g) && g_dirty g); [|exact I].
+      revert I. apply Inv_ext; reflexivity.
+    - assert (PE' : cf_persist (g_cf g) = true) by (rewrite C; exact O).
+      pose proof (restart_spec g d PE' (S O)) as RS.
+      assert (KS : keys (g_sensors (fst (restart g d))) = keys (g_sensors g)).
+      { rewrite RS. cbn [fst g_sensors set_dirty set_sensors]. rewrite keys_load_tree. apply keys_proj. }
+      split; [|split; [|intros n N; discriminate N]].
+      + split; [rewrite RS; exact C|]. split; [rewrite RS; apply Inv_loaded; exact I|].
+        split; [rewrite KS; exact R|exact SY].
+      + intros k K. apply zhas_keys. rewrite KS. apply zhas_keys. exact K.
+  Qed.
+
+  Lemma ids_gen v cf pops : cfg_is v cf -> Forall (pop_ok2 cf) pops -> forall s, IInv cf s ->
+    NoDup (ids_handed v s pops) /\ StronglySorted Z.lt (ids_handed v s pops) /\
+    Forall (fun n => 1 <= n <= 254 /\ forall k, zhas k (g_sensors (fst s)) = true -> k < n)
+           (ids_handed v s pops).
+  Proof.
+    intros CI. induction pops as [|o r IH]; intros F s H; cbn [ids_handed].
+    - split; [constructor|]. split; constructor.
+    - inversion F as [|? ? O F']; subst.
+      destruct (ipstep v cf s o CI O H) as (H1 & MONO & IDS).
+      destruct (IH F' _ H1) as (ND & SS & FA).
+      assert (FA' : Forall (fun n => 1 <= n <= 254 /\ forall k, zhas k (g_sensors (fst s)) = true -> k < n)
+                           (ids_handed v (pstep orc clock s o) r)).
+      { eapply Forall_impl; [|exact FA]. intros n [B K]. split; [exact B|]. intros k Hk. apply K, MONO, Hk. }
+      destruct (id_of_pstep v s o) as [n|]; cbn [app]; [|split; [exact ND|split; [exact SS|exact FA']]].
+      destruct (IDS n eq_refl) as (B & GT & IN).
+      assert (LT : Forall (Z.lt n) (ids_handed v (pstep orc clock s o) r)).
+      { eapply Forall_impl; [|exact FA]. intros x [_ K]. apply K. exact IN. }
+      split; [|split].
+      + constructor; [|exact ND]. intro X. rewrite Forall_forall in LT. specialize (LT _ X). lia.
+      + constructor; assumption.
+      + constructor; [split; assumption|exact FA'].
+  Qed.
+
+  Lemma IInv_init cf : IInv cf (gw_init cf, None).
+  Proof.
+    split; [reflexivity|]. split; [apply Inv_init|]. split; [constructor|]. intros _ D. discriminate D.
+  Qed.
+
+  (* C06.2 over whole histories, including periodic saves and (with persistence) clean
+     stop/restart: the ids handed out are pairwise distinct - strictly increasing -, lie in
+     1..254, and each exceeds every node id known when it is handed out *)
+  Theorem ids_never_twice v cf pops : cfg_is v cf -> Forall (pop_ok2 cf) pops ->
+    NoDup (ids_handed v (gw_init cf, None) pops) /\
+    StronglySorted Z.lt (ids_handed v (gw_init cf, None) pops) /\
+    Forall (fun n => 1 <= n <= 254) (ids_handed v (gw_init cf, None) pops).
+  Proof.
+    intros CI F. destruct (ids_gen v cf pops CI F _ (IInv_init cf)) as (ND & SS & FA).
+    split; [exact ND|]. split; [exact SS|]. eapply Forall_impl; [|exact FA]. intros n [B _]. exact B.
+  Qed.
+
+  (* per step, in every reachable state of the persistence machine *)
+  Theorem id_fresh_in_history v cf pops o n : cfg_is v cf -> Forall (pop_ok2 cf) pops -> pop_ok2 cf o ->
+    let s := prun orc clock (gw_init cf, None) pops in
+    id_of_pstep v s o = Some n ->
+    1 <= n <= 254 /\ zhas n (g_sensors (fst s)) = false /\
+    (forall k, zhas k (g_sensors (fst s)) = true -> k < n) /\
+    zhas n (g_sensors (fst (pstep orc clock s o))) = true.
+  Proof.
+    intros CI F O s N.
+    assert (H : IInv cf s).
+    { subst s. revert F. generalize (IInv_init cf). generalize (gw_init cf, @None tree).
+      induction pops as [|p r IH]; intros s0 H0 F0; [exact H0|].
+      inversion F0; subst. unfold prun. cbn [fold_left]. apply IH; [|assumption].
+      destruct (ipstep v cf s0 p CI) as (H1 & _); assumption. }
+    destruct (ipstep v cf s o CI O H) as (_ & _ & IDS). destruct (IDS n N) as (B & GT & IN).
+    split; [exact B|]. split; [|split; assumption].
+    destruct (zhas n (g_sensors (fst s))) eqn:Z; [|reflexivity]. specialize (GT _ Z). lia.
+  Qed.
+
+  (* C06.4: a clean stop/restart keeps every reserved id (the whole key list, in order) *)
+  Theorem restart_keeps_reservations v cf pops : cfg_is v cf -> cf_persist cf = true -> Forall pop_ok pops ->
+    let s := prun orc clock (gw_init cf, None) pops in
+    keys (g_sensors (fst (pstep orc clock s PRestart))) = keys (g_sensors (fst s)).
+  Proof.
+    intros CI PE F s. destruct (stop_loses_nothing orc clock v cf pops CI PE F) as (_ & _ & L).
+    fold s in L. rewrite L, keys_load_tree. apply keys_proj.
+  Qed.
+End IdsHistory.
